@@ -49,6 +49,66 @@ chk("C01",
     floors={"quick": {"evaluations": 30000, "events_observed": 100000}},
     )
 
+chk("C02",
+    level="exploration",
+    technique="runtime monitor with two independent decoders: every generated message sequence is encoded by the real Message.WriteTo/MarshalText/String and decoded by a strict WHATWG reference interpreter and by sse.Read; the decoded events must equal the list computed from the API arguments alone",
+    level_text="Executes the real encoder on small-scope-exhaustive and seeded hostile payloads (CR/LF/CRLF runs, colons, leading spaces, field look-alikes, BOM, NUL, 70 KB) in every role (data, comment, ID, type), alone and in concatenated sequences of 1-5 messages with all Retry edge values, and decodes the bytes with a spec-strict reference and with go-sse's own parser. Held = no decoded sequence differed from the expectation derived from the arguments.",
+    level_note="Trusts the strict reference interpreter and the line model (a trailing line break does not open an extra empty line). IDs containing NUL are expected to be ignored by clients, per spec.",
+    rule="cases = all strings up to length 5 (thorough 6) over {a,' ',':',CR,LF,NUL} as data / comment / ID+type candidate between two plain messages + every hostile-pool entry in every role + seeded random sequences of 1-5 random messages; non-trivial = contains protocol-looking payload (colon, leading/trailing space, empty or multiple lines, NUL) and at least one data-carrying message; distinct = distinct wire text",
+    assumptions=["reference interpreter is a spec-conforming SSE parser", "line model: every CR, LF or CRLF is one line break; a trailing break opens no extra line"],
+    nbatch={"quick": 16, "thorough": 16},
+    timeout_s={"quick": 600, "thorough": 3600},
+    floors={"quick": {"evaluations": 20000, "events_decoded_strict": 30000}},
+    )
+
+chk("C14",
+    level="exploration",
+    technique="runtime assertion monitor on every construction route of EventID/EventType (NewID/NewType, ID/Type, UnmarshalText, UnmarshalJSON incl. escaped forms and struct fields, Scan, Message.UnmarshalText, Upgrade header) + wire check of every set value through a strict reference decoder",
+    level_text="Every input of the small-scope-exhaustive and hostile families is pushed through every route; the monitor asserts IsSet => no CR/LF, CR/LF in the input => unset (+ error where the route has one), and that a message carrying the resulting value decodes to exactly one event between its neighbours. Held = no assertion fired.",
+    level_note="Inputs outside the generated families are not covered; the Upgrade route is driven with header maps set directly on the request (net/http would reject CR/LF on the wire).",
+    rule="cases = all strings up to length 5 (thorough 7) over {a,CR,LF,':',' '} + hostile pool + raw JSON documents + non-string driver values + wire texts from the C01 generators through Message.UnmarshalText; non-trivial = input contains CR or LF (string routes) or an id/event field (wire texts); distinct = distinct input",
+    assumptions=["encoding/json decodes escapes as documented"],
+    nbatch={"quick": 8, "thorough": 16},
+    timeout_s={"quick": 600, "thorough": 3600},
+    floors={"quick": {"observations": 100000, "multiline_inputs_rejected": 10000}},
+    )
+
+chk("C15",
+    level="fault_enumeration",
+    technique="runtime monitor: round-trip of real MarshalText/UnmarshalText against a line model, and a fault-injecting io.Writer failing at every individual Write call of each encoding with 0 / 1 / len-1 / len bytes accepted, checking the returned (n, err) and the accepted prefix",
+    level_text="For each generated message the number W of Write calls of its encoding is measured, then WriteTo is re-executed once per (call index k < W, accepted byte count j) with the writer failing there; the monitor checks err identity, n == bytes accepted, accepted bytes == prefix of the full encoding, no Write after the failure. Encodings with more than 60 calls are sampled (first/last 12 calls and a stride). Round trip compares re-encoded bytes and fields.",
+    level_note="Only io.Writer-contract-respecting writers are injected (short write implies an error). Trusts the line model's Encode as the definition of the wire text.",
+    rule="cases = hand-picked shapes + seeded random messages (NUL-free IDs) from the hostile pool; each message x every Write call index x {0,1,len-1,len} accepted bytes; non-trivial = message has at least one field; distinct = distinct encoding",
+    assumptions=["writers respect the io.Writer contract"],
+    nbatch={"quick": 16, "thorough": 16},
+    timeout_s={"quick": 600, "thorough": 3600},
+    floors={"quick": {"faulted_writes": 50000, "roundtrips": 3000}},
+    )
+
+chk("C08",
+    level="exploration",
+    technique="reference-model monitor: real FiniteReplayer driven by exhaustive small and seeded long Put/Replay histories, every Replay's Send/Flush log and every Put result compared with a sequential FIFO model; Send/Flush fault injection at every replay position; reflection probe of ring shapes for coverage",
+    level_text="For capacities 2-4 (thorough 2-6), both ID modes and 7 topic patterns, every presented-ID class (each buffered position, each evicted ID, unset, ten never-issued forms) x 3 subscription topic sets is replayed after every one of 2N+2 Puts, with invalid Puts interleaved, so every reachable (head, tail, count) and every start index incl. start == write index is executed; random histories extend to capacities up to 64. The monitor compares each Send sequence, IDs, flush and error with the model. Held = no difference.",
+    level_note="Evicted IDs in automatic mode and numeric look-alikes of issued IDs (\"007\") are recorded but not judged (the property does not constrain them). Ring shapes are read by reflection for evidence only.",
+    rule="cases = exhaustive block (capacity x mode x topic pattern, each a history of 2N+2 valid and N+1 invalid Puts with all ID classes replayed after every Put) + seeded random histories over capacities {2..9,16,64}; non-trivial = history longer than the capacity (eviction happened); distinct = distinct (configuration, op-string)",
+    assumptions=["unique payload tokens identify each Put in the Send log"],
+    nbatch={"quick": 8, "thorough": 16},
+    timeout_s={"quick": 600, "thorough": 3600},
+    floors={"quick": {"replays": 200000, "sends_observed": 100000}},
+    )
+
+chk("C09",
+    level="exploration",
+    technique="reference-model monitor: real ValidReplayer with an injected clock driven by exhaustive op strings (Put/GC/clock advance, TTL=2) and seeded long histories that grow, wrap and shrink the buffer; every Replay compared with a sequential expiry model",
+    level_text="All op strings of length 6 (thorough 8) over {Put a, Put b, GC, +1, +2} for TTL=2 under 6 GCInterval settings and both ID modes, with every ID class (every unexpired ID, expired IDs, unset, never-issued) replayed after every op; plus random histories up to 125 ops with TTL in {1,10,1000 ns,1 s}, bursts that grow the ring to 128 slots and GC/advance mixes that shrink it. The monitor checks the exact Send sequence for unexpired IDs, that no expired event is ever sent whatever ID is presented, and that unexpired events are never missing.",
+    level_note="Presenting an expired ID is unconstrained by the property and only recorded. The clock is injected through ValidReplayer.Now and is non-decreasing.",
+    rule="cases = exhaustive op strings (TTL=2) x GCInterval in {0,ttl/4,ttl/2,ttl,5ttl,1ns} x {manual,auto} + seeded random histories; non-trivial = history contains Puts and clock advances (A) or more than 4 Puts (B); distinct = distinct (configuration, op-string)",
+    assumptions=["unique payload tokens identify each Put in the Send log", "clock non-decreasing"],
+    nbatch={"quick": 16, "thorough": 16},
+    timeout_s={"quick": 600, "thorough": 5400},
+    floors={"quick": {"replays": 1000000, "sends_observed": 500000}},
+    )
+
 not_built = {
 }
 
